@@ -56,10 +56,12 @@ def gen_scenario(rng, cfg, n_calls, multi_prob, history=None):
                 if 0 not in idxs and k > 1:
                     idxs[0] = 0
             keys = rng.sample(range(0, 12), k)
-            history.append({"batch": [[keys[i], idxs[i]] for i in range(k)], "multi": rng.random() < multi_prob,
+            multi_ = rng.random() < multi_prob
+            history.append({"batch": [[keys[i], idxs[i]] for i in range(k)], "multi": multi_,
                             "delays": [round(rng.choice([0, 0.05, 0.15, 0.3]), 2) for _ in range(k)],
-                            # generous budgets that never expire: the answers must not depend on a budget being set
-                            "budget": rng.choice([None, None, ["inference_timeout", 60], ["total_timeout", 120]])})
+                            # generous budgets that never expire: the answers must not depend on a budget being set (parallel calls: 3 of 4)
+                            "budget": rng.choice([None, ["inference_timeout", 60], ["total_timeout", 120], ["inference_timeout", 90]] if multi_ else
+                                                 [None, None, ["inference_timeout", 60], ["total_timeout", 120]])})
     else:
         history = [{"batch": [[k, (q - 1) % len(pool)] for k, q in h["batch"]], "multi": h["multi"], "delays": [round(rng.choice([0, 0.1, 0.25]), 2) for _ in h["batch"]],
                     "budget": rng.choice([None, None, ["inference_timeout", 60], ["total_timeout", 120]])} for h in history]
